@@ -7,7 +7,7 @@
 (* (DESIGN.md section 8: credit/escrow, coin/settlement, roles, bridge,     *)
 (* ids, params are never enumerated together).                             *)
 (***************************************************************************)
-EXTENDS Props
+EXTENDS Props, Randomization
 
 CONSTANTS
   Users,        \* e.g. {"a1","a2","a3"}
@@ -126,6 +126,17 @@ Next ==
   /\ IssuedBounded(st')
 
 Spec == Init /\ [][Next]_<<vars, depth>>
+
+\* Behaviour generation (tlc -simulate): one message type per step, chosen at
+\* random, and a bias towards messages the specification accepts -- otherwise
+\* failing messages, which are the majority of every domain, crowd out the rest.
+GenNext ==
+  /\ depth' = depth + 1
+  /\ \E T \in RandomSubset(1, {X \in MsgTypes : Msgs(st, X) # {}}) :
+       LET ms   == Msgs(st, T)
+           good == {m \in ms : \E r \in ApplySet(st, m) : r.ok /\ IssuedBounded(r.s)}
+           pick == IF good # {} /\ RandomElement(1..4) > 1 THEN good ELSE ms
+       IN \E m \in RandomSubset(1, pick) : Step(m)
 
 \* exhaustive runs look at the chain state and the ghost only
 View == <<st, gh, depth>>
